@@ -652,6 +652,43 @@ func c05Mismatch(c *Ctx, m *fsmx.Machine, fn *ssa.Function) {
 		r.Check(good, "C05/R7", sprintf("%s:compare#%d:mismatch-cancels", key, i), "on a mismatch the validator stores the cancel event and cannot go on to the advance event", c.PosOf(call),
 			"from the not-equal edge the cancel event is not stored, or the advance event remains reachable")
 	}
+	// the advance event requires that the comparison ran to completion: every path to the advance emission leaves the
+	// comparison loop through its bound test, or passes the `fewer than two keys` edge
+	{
+		em := fsmx.EmittedEvents(fn)
+		var advanceSites []ssa.Instruction
+		for _, x := range em.Names() {
+			if t := m.Trans[[2]string{stMasterKeyAwait, x}]; t != nil && t.Dst == stMasterKeyCollect {
+				advanceSites = append(advanceSites, em.Consts[x]...)
+			}
+		}
+		var pass []ssax.Edge
+		for _, cd := range ssax.Conds(fn) {
+			yp := ""
+			if cd.Y != nil {
+				yp = ssax.Path(cd.Y)
+			}
+			xp := ssax.Path(cd.X)
+			// loop bound of the loop that contains the comparison
+			if cd.Op == token.LSS && strings.HasPrefix(yp, "len(") && len(cmp) > 0 && ssax.ReachableFrom(fn, cd.If, cmp[0], nil, nil) && ssax.ReachableFrom(fn, cmp[0], cd.If, nil, nil) {
+				pass = append(pass, ssax.Edge{From: cd.If.Block(), Succ: 1})
+			}
+			// `len(masterKeys) > 1` false edge
+			if strings.HasPrefix(xp, "len(") && (cd.Op == token.GTR || cd.Op == token.GEQ) {
+				if k, ok := ssax.ConstInt(cd.Y); ok && ((cd.Op == token.GTR && k == 1) || (cd.Op == token.GEQ && k == 2)) {
+					pass = append(pass, ssax.Edge{From: cd.If.Block(), Succ: 1})
+				}
+			}
+		}
+		bad := len(pass) == 0 || len(advanceSites) == 0
+		for _, s := range advanceSites {
+			if ssax.ReachableAvoiding(fn, s, pass, nil) {
+				bad = true
+			}
+		}
+		r.Check(!bad, "C05/R7", key+":advance-after-comparison", "the advance event is emitted only after all announced keys were compared (or fewer than two exist)", c.Pos(fn.Pos()),
+			"the advance emission is reachable on a path that does not run the key comparison to completion: the announcement that completes the quorum would not be compared")
+	}
 	// every announced key takes part: the comparison loop ranges over the collected slice, which is appended for every Confirmed participant
 	r.Note("C05/R7 compares each collected key with the first one (all-vs-first); the collected slice is appended under Status==MasterKeyConfirmed inside the quorum range")
 }
